@@ -735,7 +735,137 @@ def r15_13(chk, P):
                'OV_ECTL_RATEMANAGE_HARD hand their arguments through unchecked'))
     return n
 
+# ---- R15.1 -------------------------------------------------------------------------------------------------------------------
+_R15_1 = {}
+
+
+def _r15_1_one(tname):
+    import tmpl
+    P, roots, fields = _R15_1['P'], _R15_1['roots'], _R15_1['fields']
+    try:
+        ctx = tmpl.analyse_template(P, tname, roots, fields)
+    except AnalysisBroken as x:
+        return tname, None, str(x), None, None
+    out = []
+    for (fk, e), o in ctx['obs'].items():
+        out.append((fk, e, o['ok'], absint.fmt(o['idx'].lo), absint.fmt(o['idx'].hi), o['ext'], sorted(o['what'])[:3], o['deref']))
+    return tname, out, None, sorted(ctx['lemmas']), (ctx['M'], sorted(ctx['analysed']))
+
+
+def _setting_fields(chk, P):
+    """the fields that carry a setting: base_setting itself (stored only from get_setup_template's out-parameter) and every
+    field that is only ever assigned a copy of it"""
+    recs = ('highlevel_encode_setup', 'highlevel_byblocktype')
+    copies, other = {}, {}
+    base_stores = []
+    for F in P.functions():
+        for n, nd in F.ex.items():
+            if nd['k'] != 'assign' or n not in F.pos:
+                continue
+            l = F.ex[F.strip_casts(nd['c'][0])]
+            if l['k'] != 'member' or l.get('record') not in recs:
+                continue
+            key = (l['record'], l['field'])
+            r = F.ex[F.strip_casts(nd['c'][1])]
+            if key == ('highlevel_encode_setup', 'base_setting'):
+                base_stores.append((F, n))
+                continue
+            if nd['op'] == '=' and r['k'] == 'member' and (r.get('record'), r.get('field')) == ('highlevel_encode_setup', 'base_setting'):
+                copies.setdefault(key, []).append((F, n))
+            else:
+                other.setdefault(key, []).append((F, n))
+    fields = [('highlevel_encode_setup', 'base_setting')] + sorted(k for k in copies if k not in other)
+    # base_setting: written through &hi->base_setting handed to get_setup_template, or from a local that was
+    G = P.need('get_setup_template')
+    outp = None
+    for i, p in enumerate(G.params):
+        if p['t'].replace(' ', '') == 'double*':
+            outp = i
+    chk.require(outp is not None, 'get_setup_template has no double* out-parameter for the setting')
+    nsrc = 0
+    for F in P.functions():
+        for c in F.calls('get_setup_template'):
+            nsrc += 1
+    for F, n in base_stores:
+        r = F.ex[F.strip_casts(F.ex[n]['c'][1])]
+        ok = False
+        if F.ex[n]['op'] == '=' and r['k'] == 'ref' and r['decl'].get('kind') == 'var':
+            for c in F.calls('get_setup_template'):
+                a = F.ex[F.strip_casts(F.ex[c]['c'][outp])]
+                if a['k'] == 'un' and a['op'] == '&':
+                    t = F.ex[F.strip_casts(a['c'][0])]
+                    if t['k'] == 'ref' and t['decl'] == r['decl']:
+                        ok = True
+        chk.ob('R15.1', F.name, f'setting-from-template-lookup#{base_stores.index((F, n))}', ok, F.where(n),
+               'hi->base_setting is stored from the setting get_setup_template computed for the template' if ok else
+               f'hi->base_setting is stored from {F.s(F.ex[n]["c"][1])}, which is not a setting computed by get_setup_template')
+    chk.require(nsrc >= 2, 'get_setup_template is no longer called by the set-up entry points')
+    return fields
+
+
+def r15_1(chk, P):
+    chk.rule('R15.1', 'template table extents cover every index set-up can form: for every template of setup_list (a constant '
+             'initialiser, evaluated by the front end) K4 is run over vorbis_encode_setup_init, vorbis_encode_setup_setting, '
+             'setting_to_approx_bitrate and the helpers they call with an abstract pointer domain over the constant mode tables; '
+             'every subscript, `->` and memcpy source that goes through a pointer into those tables is an obligation: the index '
+             'interval lies inside the extent of the array the pointer designates in that template.  Indices are the integer '
+             'part of a setting (`x[is]`, `x[is+1]`), loop counters bounded by template counts, and values read from the tables '
+             'themselves (`in+(int)x[is]`, the interpolated compander / global-psy index).  Premise: every setting lies in '
+             '[0, mappings-0.001] (what get_setup_template stores, R15.2; every other setting field is only ever a copy of '
+             'base_setting, checked here).  Lemmas: CONVEX (a*(1-d)+b*d with d in [0,1] stays in the hull of a and b -- real '
+             'arithmetic; rounding of the interpolation is not modelled), FRAC (integer and fractional part of a non-negative '
+             'value).  Not decided: floor book lists reached through the heap copy of a floor template (`books[x[is]][i]`)')
+    import multiprocessing
+    g = None
+    for cand in P.globals.get('setup_list', []):
+        if 'init' in cand:
+            g = cand
+    chk.require(g is not None, 'setup_list has no evaluated initialiser')
+    names = [el['name'] for el in g['init']['elems'] if isinstance(el, dict) and el.get('kind') == 'ref']
+    chk.require(len(names) >= 10, f'setup_list names only {len(names)} templates')
+    fields = _setting_fields(chk, P)
+    chk.require(len(fields) >= 5, f'only {len(fields)} setting fields found')
+    roots = [r for r in ('vorbis_encode_setup_init', 'vorbis_encode_setup_setting', 'setting_to_approx_bitrate') if P.get(r)]
+    chk.require('vorbis_encode_setup_init' in roots, 'vorbis_encode_setup_init not found')
+    _R15_1.update(P=P, roots=roots, fields=fields)
+    with multiprocessing.get_context('fork').Pool(min(16, len(names))) as pool:
+        res = pool.map(_r15_1_one, names)
+    sites = {}
+    lem = set()
+    for tname, out, err, lemmas, info in res:
+        chk.require(err is None, f'R15.1: {err}')
+        lem |= set(lemmas)
+        chk.require(len(out) >= 60, f'template {tname}: only {len(out)} table accesses were followed')
+        for (fk, e, ok, lo, hi, ext, what, deref) in out:
+            sites.setdefault((fk, e), []).append((tname, ok, lo, hi, ext, what, deref))
+    chk.require({'CONVEX', 'FRAC'} <= lem, 'the interpolated table indices were not met (lemmas CONVEX/FRAC unused)')
+    ordn = {}
+    for (fk, e), lst in sorted(sites.items(), key=lambda kv: (kv[0][0], P.fn[kv[0][0]].ex[kv[0][1]].get('loc') or [0, 0], kv[0][1])):
+        F = P.fn[fk]
+        txt = F.s(e, names=False)
+        i = ordn.get((fk, txt), 0)
+        ordn[(fk, txt)] = i + 1
+        bad = [x for x in lst if not x[1]]
+        if bad:
+            t, _, lo, hi, ext, what, deref = bad[0]
+            msg = (f'{F.s(e)}: in template {t} the index is [{lo},{hi}] but the table {what[0]} has {ext} element(s)'
+                   + (f' ({len(bad)} templates in all: {", ".join(b[0] for b in bad[:6])})' if len(bad) > 1 else ''))
+        else:
+            msg = f'{F.s(e)}: inside the table in all {len(lst)} template contexts (e.g. {lst[0][0]}: [{lst[0][2]},{lst[0][3]}] of {lst[0][4]})'
+        chk.ob('R15.1', F.name, f'table-index:{txt}#{i}', not bad, F.where(e), msg)
+    for fn, why in (('vorbis_encode_compand_setup', 'compander'), ('vorbis_encode_global_psych_setup', 'global psy')):
+        if P.get(fn):
+            chk.assumed('R15.1', fn, 'interpolated-index-rounding', P.get(fn).where(),
+                        f'the {why} index is the integer part of x[is]*(1-ds)+x[is+1]*ds; in real arithmetic it stays in the hull of the '
+                        'two table values (lemma CONVEX); in double arithmetic a*(1-d)+a*d can exceed a by one ulp when d has '
+                        'more than ~29 significant bits below 2^-29 -- the setting fraction is a `float` quotient here, for which the '
+                        'products are exact (checked exhaustively for all float qualities in [0.5,1) outside this tool)')
+    return len(sites)
+
+
 def run(chk, P):
+    r15_1(chk, P)
+    chk.floor('R15.1', 100)
     r15_7(chk, P)
     chk.floor('R15.7', 3)
     r15_8(chk, P)
